@@ -28,6 +28,7 @@ fn fails_when_released(trigger: &Vec<KeyCode>, key: &KeyCode) -> bool {
 }
 
 #[derive(Debug)]
+#[cfg_attr(ellbur_totalmapper_verif, derive(Clone, PartialEq, Eq, Hash))]
 struct State {
   input_pressed_keys: Vec<KeyCode>,
   active_mappings: Vec<Mapping>,
@@ -178,6 +179,19 @@ impl Mapper {
     
     events
   }
+}
+
+// Verification hooks: opaque snapshot / restore / fingerprint of the whole mapper
+// state, through derived impls only (no field is named here).
+#[cfg(ellbur_totalmapper_verif)]
+#[derive(Clone, PartialEq, Eq, Hash)]
+pub struct VerifSnapshot(State);
+
+#[cfg(ellbur_totalmapper_verif)]
+impl Mapper {
+  pub fn verif_snapshot(&self) -> VerifSnapshot { VerifSnapshot(self.state.clone()) }
+  pub fn verif_restore(&mut self, snapshot: &VerifSnapshot) { self.state = snapshot.0.clone(); }
+  pub fn verif_fingerprint(&self) -> String { format!("{:?}", self.state) }
 }
 
 fn is_action_key(k: &KeyCode) -> bool {
